@@ -249,3 +249,112 @@ fn c07_t_empty_input() {
 	assert!(BoxedLockCollection::try_new(e).is_some(), "C07_empty_input_is_duplicate_free_boxed");
 	kani::cover!(true, "end");
 }}
+
+// ---- thorough tier: 4 members over 5 locks ----
+vharness! {
+#[kani::unwind(7)]
+fn c07_t_boxed_try_new_refs4_of5() {
+	let u = <[M; 5] as Make<5>>::make([0; 5]);
+	let p = [idx::<5>(), idx::<5>(), idx::<5>(), idx::<5>()];
+	let dup = p[0] == p[1] || p[0] == p[2] || p[0] == p[3] || p[1] == p[2] || p[1] == p[3] || p[2] == p[3];
+	let r = BoxedLockCollection::try_new([&u[p[0]], &u[p[1]], &u[p[2]], &u[p[3]]]);
+	assert!(r.is_none() == dup, "C07_boxed_try_new_rejects_exactly_the_duplicates");
+	if let Some(c) = &r {
+		let locks = cp::boxed_locks(c);
+		assert!(locks.len() == 4 && strictly_sorted(locks), "C08_cached_list_sorted_by_address");
+	}
+	kani::cover!(dup, "dup");
+	kani::cover!(!dup, "nodup");
+	kani::cover!(p[0] == p[3] && p[0] != p[1] && p[0] != p[2] && p[1] != p[2], "dup_first_and_last");
+}}
+
+vharness! {
+#[kani::unwind(7)]
+fn c07_t_ref_try_new_refs4_of5() {
+	let u = <[M; 5] as Make<5>>::make([0; 5]);
+	let p = [idx::<5>(), idx::<5>(), idx::<5>(), idx::<5>()];
+	let dup = p[0] == p[1] || p[0] == p[2] || p[0] == p[3] || p[1] == p[2] || p[1] == p[3] || p[2] == p[3];
+	let members = [&u[p[0]], &u[p[1]], &u[p[2]], &u[p[3]]];
+	let r = RefLockCollection::try_new(&members);
+	assert!(r.is_none() == dup, "C07_ref_try_new_rejects_exactly_the_duplicates");
+	if let Some(c) = &r {
+		let locks = cp::ref_locks(c);
+		assert!(locks.len() == 4 && strictly_sorted(locks), "C08_cached_list_sorted_by_address");
+	}
+	kani::cover!(dup, "dup");
+	kani::cover!(!dup, "nodup");
+}}
+
+vharness_hashset! {
+#[kani::unwind(7)]
+fn c07_t_retry_try_new_refs4_of5() {
+	let u = <[M; 5] as Make<5>>::make([0; 5]);
+	let p = [idx::<5>(), idx::<5>(), idx::<5>(), idx::<5>()];
+	let dup = p[0] == p[1] || p[0] == p[2] || p[0] == p[3] || p[1] == p[2] || p[1] == p[3] || p[2] == p[3];
+	let r = RetryingLockCollection::try_new([&u[p[0]], &u[p[1]], &u[p[2]], &u[p[3]]]);
+	assert!(r.is_none() == dup, "C07_retry_try_new_rejects_exactly_the_duplicates");
+	kani::cover!(dup, "dup");
+	kani::cover!(!dup, "nodup");
+	kani::cover!(p[0] == p[3] && p[0] != p[1] && p[0] != p[2] && p[1] != p[2], "dup_first_and_last");
+}}
+
+// ---- generic: N members over K locks, every arrangement symbolic ----
+fn any_pair_equal<const N: usize>(p: &[usize; N]) -> bool {
+	let mut i = 0;
+	while i < N {
+		let mut j = i + 1;
+		while j < N {
+			if p[i] == p[j] {
+				return true;
+			}
+			j += 1;
+		}
+		i += 1;
+	}
+	false
+}
+
+fn t_try_new_all<const N: usize, const K: usize>(which: u8) {
+	let u = <[M; K] as Make<K>>::make([0; K]);
+	let p: [usize; N] = core::array::from_fn(|_| idx::<K>());
+	let dup = any_pair_equal(&p);
+	let members: [&M; N] = core::array::from_fn(|i| &u[p[i]]);
+	match which {
+		0 => {
+			let r = BoxedLockCollection::try_new(members);
+			assert!(r.is_none() == dup, "C07_boxed_try_new_rejects_exactly_the_duplicates");
+			if let Some(c) = &r {
+				assert!(cp::boxed_locks(c).len() == N && strictly_sorted(cp::boxed_locks(c)), "C08_cached_list_sorted_by_address");
+			}
+		}
+		1 => {
+			let r = RefLockCollection::try_new(&members);
+			assert!(r.is_none() == dup, "C07_ref_try_new_rejects_exactly_the_duplicates");
+			if let Some(c) = &r {
+				assert!(cp::ref_locks(c).len() == N && strictly_sorted(cp::ref_locks(c)), "C08_cached_list_sorted_by_address");
+			}
+		}
+		_ => {
+			let r = RetryingLockCollection::try_new(members);
+			assert!(r.is_none() == dup, "C07_retry_try_new_rejects_exactly_the_duplicates");
+		}
+	}
+	kani::cover!(dup, "dup");
+	kani::cover!(N > K || !dup, "nodup");
+}
+
+vharness! {
+#[kani::unwind(9)]
+fn c07_t_boxed_try_new_5_of_5() { t_try_new_all::<5, 5>(0); }}
+vharness! {
+#[kani::unwind(9)]
+fn c07_t_ref_try_new_5_of_5() { t_try_new_all::<5, 5>(1); }}
+vharness_hashset! {
+#[kani::unwind(9)]
+fn c07_t_retry_try_new_5_of_5() { t_try_new_all::<5, 5>(2); }}
+vharness! {
+#[kani::unwind(10)]
+fn c07_t_boxed_try_new_6_of_5() { t_try_new_all::<6, 5>(0); }}
+vharness_hashset! {
+#[kani::unwind(10)]
+fn c07_t_retry_try_new_6_of_5() { t_try_new_all::<6, 5>(2); }}
